@@ -156,6 +156,6 @@ def _shared_c05(ctx):
     from .c12 import label_sinks
     from .c19 import lifecycle_of
     ctx.rule("R05.5", "fit does not depend on state left by an earlier fit and prediction writes no state (shared with C19 R19.3 / R19.4)")
-    lifecycle_of(ctx, [TO], {"R19.3": "R05.5", "R19.4": "R05.5", "R19.6": "R05.5"})
+    lifecycle_of(ctx, [TO], {"R19.3": "R05.5", "R19.4": "R05.5", "R19.6": "R05.5", "R19.8": "R05.5"})
     ctx.rule("R05.4", "no caller-labelled pandas value reaches a label-aligning operation on the paths of this property (shared with C12 R12.1)")
     label_sinks(ctx, "R05.4", [(TO + ".fit", TO)])
